@@ -179,6 +179,9 @@ func (c *Ctx) Finish() int {
 		"wall_s":      float64(int(c.Elapsed().Seconds()*100)) / 100,
 		"violations":  c.Viol,
 	}
+	if ra := os.Getenv("VERIF_RACE_AUDIT"); ra != "" {
+		c.Coverage["race_audit_free_running"] = ra
+	}
 	c.Coverage["known_findings_hit"] = c.Known
 	c.Coverage["unconfirmed"] = c.Unconf
 	if _, ok := c.Coverage["samples"]; !ok {
